@@ -1207,7 +1207,7 @@ def x1f_nested_roundtrip(h):
 
 
 @oset("at4.xFF11.decode-longer-record", ["C05", "C17"], ABL_FNS[2:3],
-      bounded="one record with following length 25..50 (1..26 bytes beyond the 26-byte layout), empty AC name")
+      bounded="one record with following length 25..50 (1..26 zero bytes beyond the 26-byte layout), empty AC name")
 def abl_decode_longer_record(h):
     """End-to-end companion of the loop-level stride obligations of at4.xFF11.decode-vendor-reading, with natively
     replayable counter-models: the data is exactly one record whose announced following length is larger than the
@@ -1219,6 +1219,7 @@ def abl_decode_longer_record(h):
     b = h.items(buf)
     h.assume(b[1] == fl, "Byte4 announces the following length of this one record")
     h.assume(b[2] == 0, "empty AC name (keeps the path count small; names are covered by the unbounded set)")
+    h.assume(And(*[x == 0 for x in b[26:]]), "the bytes beyond the known 26-byte layout are zero (bounded witness set)")
     r = h.method(h.new(ABL + ":AcAbilityDecoder"), "decode", buf, at4_subheader(h, SUB_ABILITY, n))
     h.oblige("a record longer than the known layout is not rejected for its length", r.ok)
     if not r.ok:
